@@ -1,0 +1,41 @@
+//go:build verif
+
+package skl
+
+// Thin wrappers for the verification harness (/verif). They only call production code.
+
+import "github.com/dgraph-io/badger/v4/y"
+
+// VerifHeight returns the current height of the list.
+func (s *Skiplist) VerifHeight() int { return int(s.getHeight()) }
+
+// VerifLevels walks every level chain (head.tower[i] -> ... -> nil) for
+// i < getHeight() with getNext and returns the keys in chain order.
+// maxSteps bounds each walk (a cycle would otherwise never end); ok=false if it was hit.
+func (s *Skiplist) VerifLevels(maxSteps int) (levels [][][]byte, ok bool) {
+	h := int(s.getHeight())
+	ok = true
+	for i := 0; i < h; i++ {
+		var chain [][]byte
+		n := s.getNext(s.head, i)
+		for steps := 0; n != nil; steps++ {
+			if steps >= maxSteps {
+				ok = false
+				break
+			}
+			chain = append(chain, y.Copy(n.key(s.arena)))
+			n = s.getNext(n, i)
+		}
+		levels = append(levels, chain)
+	}
+	return levels, ok
+}
+
+// VerifFindNear calls findNear; key is nil when no node was returned.
+func (s *Skiplist) VerifFindNear(key []byte, less, allowEqual bool) (nodeKey []byte, found bool) {
+	n, eq := s.findNear(key, less, allowEqual)
+	if n == nil {
+		return nil, eq
+	}
+	return y.Copy(n.key(s.arena)), eq
+}
